@@ -58,7 +58,12 @@ type hostSpec struct {
 }
 
 type topo struct {
-	I      int
+	I int
+	// ChunkFault: pushes to the upstream are chunked and one PATCH of every session fails without
+	// Location / Range, which sends the client to the upload-status request
+	ChunkFault bool
+	// secrets of a configuration entry without a name (the client ignores the entry; it must not print them)
+	orphan []string
 	Hosts  []*hostSpec
 	w      *modelreg.World
 	g      *gen.Graph
@@ -95,6 +100,7 @@ func genTopo(rng *rand.Rand, i int) *topo {
 		t.Hosts = append(t.Hosts, hs)
 		return hs
 	}
+	t.ChunkFault = rng.Intn(3) == 0
 	up := add("upstream", "upstream")
 	if up.Auth == "none" && rng.Intn(2) == 0 {
 		up.Auth = "basic"
@@ -131,7 +137,7 @@ func genTopo(rng *rand.Rand, i int) *topo {
 }
 
 func (t *topo) key() string {
-	var parts []string
+	parts := []string{fmt.Sprintf("chunkfault=%t", t.ChunkFault)}
 	for _, h := range t.Hosts {
 		parts = append(parts, fmt.Sprintf("%s:%s:%s:%s:%t:%t:%t:%t", h.Role, h.Auth, h.TLS, h.TokenOn, h.Extra, h.SameIP, h.Lacks, h.OddToken))
 	}
@@ -245,6 +251,19 @@ func (t *topo) build(rng *rand.Rand) {
 	t.w.Lock()
 	t.find("second").h.Repo("copy/app")
 	t.w.Unlock()
+	if t.ChunkFault {
+		seen := map[string]int{}
+		var mu sync.Mutex
+		(&modelreg.Plan{Faults: []*modelreg.Fault{{Action: "status:500", Match: func(e *modelreg.Event) bool {
+			if e.Kind != "upload-patch" {
+				return false
+			}
+			mu.Lock()
+			defer mu.Unlock()
+			seen[e.Path]++
+			return seen[e.Path] == 2 // the second PATCH of each upload session
+		}}}}).Install(up.h)
+	}
 }
 
 func regenWithURL(rng *rand.Rand, base string) *gen.Graph {
@@ -276,8 +295,14 @@ func (t *topo) client(logBuf io.Writer) *regclient.RegClient {
 		by[hs.Name] = hs
 	}
 	lg := slog.New(slog.NewTextHandler(logBuf, &slog.HandlerOptions{Level: types.LevelTrace}))
-	return rcx.New(hosts, rcx.Opts{RetryLimit: 3, Extra: []regclient.Opt{regclient.WithSlog(lg)}, Mutate: func(name string, c *config.Host) {
+	// an entry without a name, as a hand-edited configuration file may contain: ignored, and its secrets stay unprinted
+	t.orphan = []string{fmt.Sprintf("S3CorphanPW%dx", t.I), fmt.Sprintf("S3CorphanTK%dx", t.I)}
+	nameless := config.Host{Hostname: "nameless.example:5000", User: "orphan", Pass: t.orphan[0], Token: t.orphan[1]}
+	return rcx.New(hosts, rcx.Opts{RetryLimit: 3, Extra: []regclient.Opt{regclient.WithSlog(lg), regclient.WithConfigHost(nameless)}, Mutate: func(name string, c *config.Host) {
 		hs := by[name]
+		if t.ChunkFault && hs.Role == "upstream" {
+			c.BlobChunk, c.BlobMax = 64, 64
+		}
 		switch hs.TLS {
 		case "tls":
 			c.TLS = config.TLSEnabled
@@ -515,6 +540,17 @@ func (t *topo) audit(logs string) {
 					}
 				}
 			}
+		}
+	}
+	for _, sct := range t.orphan {
+		if strings.Contains(logs, sct) {
+			i := strings.Index(logs, sct)
+			a := i - 160
+			if a < 0 {
+				a = 0
+			}
+			run.Violation("secret-in-log/nameless-config-entry", "a secret of a configuration entry without a name appears in the library's log output", map[string]any{"topology": t.key(), "log_context": strings.ReplaceAll(logs[a:i], sct, "<secret>") + "<secret>"})
+			break
 		}
 	}
 	// logs
